@@ -13,7 +13,8 @@
     funcGetpath / funcIndex2 / slice      → `getpS`
     funcGetpathWithAllocator              → `getpReleaseS`  (a final slice is cloned, its ELEMENTS released)
     one iteration / the reduction of `_modify` → `modifyStepS`, `modifyAllS`
-  and the defining value semantics on `JV`: `getpathS`, `setpathS`, `modifyVS`.
+    the reduction of `_assign`            → `assignAllS`
+  and the defining value semantics on `JV`: `getpathS`, `setpathS`, `modifyVS`, `assignVS`.
 
   How a Go slice header fits labelled trees.  `updateArraySlice` recurses into `v[start:end:end]`: the
   same elements, capacity `end-start`, and an ADDRESS that is
@@ -344,5 +345,60 @@ def modifyVS (qv : JV → JV) : List PathS → JV → Option JV
       match setpathS p w (qv x) with
       | none => none
       | some w' => modifyVS qv ps w'
+
+/-- `_modify(paths; q)` in full, paths with slices.  `q x f = none`: the update query is `empty` at this
+    path — the path is appended to `$d` (the value found was released, or cloned, all the same); at the
+    end all collected paths are deleted with `_delpaths` (compileModify). -/
+def modifyFullAuxS (q : T → Nat → Option (T × Nat)) :
+    List PathS → T × List Nat × Nat → List PathS → Option ((T × List Nat × Nat) × List PathS)
+  | [], st, d => some (st, d)
+  | p :: ps, st, d =>
+    match getpReleaseS st.2.1 st.2.2 p st.1 with
+    | none => none
+    | some (x, A1, f1) =>
+      match q x f1 with
+      | none => modifyFullAuxS q ps (st.1, A1, f1) (d ++ [p])
+      | some (n, f2) =>
+        match updS A1 f2 p st.1 n with
+        | none => none
+        | some (v', A', f', log) => modifyFullAuxS q ps (applyLog log v', A', f') d
+
+def modifyFullS (q : T → Nat → Option (T × Nat)) (ps : List PathS) (v : T) (f : Nat) : Option T :=
+  match modifyFullAuxS q ps (v, [], f) [] with
+  | none => none
+  | some ((v', A', f'), d) => (delpathsST A' f' d v').map (·.1)
+
+/-- the update part of the defining reduction of `|=` on values (jq 1.7 `_modify`): first output of the
+    update query stored with `setpath`, paths where it is empty collected -/
+def modifyVAuxS (qv : JV → Option JV) : List PathS → JV → List PathS → Option (JV × List PathS)
+  | [], w, d => some (w, d)
+  | p :: ps, w, d =>
+    match getpathS p w with
+    | none => none
+    | some x =>
+      match qv x with
+      | none => modifyVAuxS qv ps w (d ++ [p])
+      | some y =>
+        match setpathS p w y with
+        | none => none
+        | some w' => modifyVAuxS qv ps w' d
+
+/-- `_assign(paths; $x)` (compiler.go compileAssign): `reduce path(paths) as $p (.; _setpath($p; $x))`
+    with one allocator for the whole reduction; nothing is released (the value `$x` exists before the
+    reduction starts).  The next iteration sees the value with the in-place writes replayed. -/
+def assignAllS (n : T) : List PathS → T × List Nat × Nat → Option (T × List Nat × Nat)
+  | [], st => some st
+  | p :: ps, st =>
+    match updS st.2.1 st.2.2 p st.1 n with
+    | none => none
+    | some (v', A', f', log) => assignAllS n ps (applyLog log v', A', f')
+
+/-- the defining reduction `reduce path(paths) as $p (.; setpath($p; $x))` on values -/
+def assignVS (n : JV) : List PathS → JV → Option JV
+  | [], w => some w
+  | p :: ps, w =>
+    match setpathS p w n with
+    | none => none
+    | some w' => assignVS n ps w'
 
 end Gojq.Heap
